@@ -16,6 +16,30 @@ func Assemble(rng *rand.Rand) string {
 	return a.doc()
 }
 
+// AssembleV2 also uses the fragments added in the second build round (DESIGN.md 10.9): keywords next to a $ref,
+// deprecated entities sharing one description text with line breaks, response headers whose names become the same
+// Go identifier, inline responses sharing a component schema under different header sets. Pool indices from
+// AsmPoolV1 on are made by it; the documents below that index are what they always were.
+func AssembleV2(rng *rand.Rand) string {
+	a := &asm{rng: rng, v2: true}
+	return a.doc()
+}
+
+var sharedDocs = []string{
+	"Kept for clients written against the first version.\nNew code must use the successor.\nThe result is limited to a hundred entries.\nRequests are counted against the same quota.\nSupport ends with the next major version.",
+	"One line that is long enough to be wrapped by the generator into several comment lines, because it goes on and on about nothing in particular until the column limit is far behind it.\nAnd a second paragraph.\nAnd a third one.",
+	"Short.",
+}
+
+// doc2 writes deprecated + a shared description (v2 only, sometimes).
+func (a *asm) doc2(indent int) {
+	if !a.v2 || a.rng.Intn(3) != 0 {
+		return
+	}
+	a.w(indent, "deprecated: true")
+	a.w(indent, "description: %q", a.pick(sharedDocs))
+}
+
 type asm struct {
 	rng     *rand.Rand
 	sb      strings.Builder
@@ -29,6 +53,7 @@ type asm struct {
 	oauth   []string // oauth2 scheme names
 	scopes  []string
 	opSeq   int
+	v2      bool
 }
 
 func (a *asm) n(lo, hi int) int { return lo + a.rng.Intn(hi-lo+1) }
@@ -123,8 +148,15 @@ func (a *asm) objectBody(indent int, allNames []string) {
 		a.w(indent+1, "%s:", p)
 		if isRef[p] {
 			a.w(indent+2, "$ref: \"#/components/schemas/%s\"", a.pick(allNames))
+			if a.v2 && a.coin() {
+				a.w(indent+2, "nullable: true")
+				if a.coin() {
+					a.w(indent+2, "description: written next to the reference")
+				}
+			}
 		} else {
 			a.primitive(indent + 2)
+			a.doc2(indent + 2)
 		}
 	}
 	switch a.rng.Intn(6) {
@@ -240,6 +272,7 @@ func (a *asm) doc() string {
 			a.w(2, "%s:", p)
 			a.w(3, "name: %s%d", map[string]string{"query": "q", "header": "X-P", "cookie": "c"}[in], i)
 			a.w(3, "in: %s", in)
+			a.doc2(3)
 			a.w(3, "schema:")
 			a.primitiveScalar(4)
 		}
@@ -273,6 +306,7 @@ func (a *asm) doc() string {
 	a.w(1, "schemas:")
 	for i, s := range a.schemas {
 		a.w(2, "%s:", s)
+		a.doc2(3)
 		switch {
 		case i < nObj:
 			a.objectBody(3, a.schemas)
@@ -399,6 +433,7 @@ func (a *asm) operation(indent int, method string, pathParams []string, webhook 
 	a.opSeq++
 	a.w(indent, "%s:", method)
 	a.w(indent+1, "operationId: op%s%d", a.pick(nameParts), a.opSeq)
+	a.doc2(indent + 1)
 	if a.coin() {
 		a.w(indent+1, "tags: [%s]", a.pick([]string{"pets", "store", "pets, store", "z"}))
 	}
@@ -456,8 +491,15 @@ func (a *asm) responseBody(indent int) {
 	if a.coin() {
 		a.w(indent, "headers:")
 		names := []string{"X-Rate", "X-Count", "ETag", "Location", "X-Req-Id", "X-Alpha", "X-Beta"}
+		if a.v2 {
+			names = append(names, "X-Req_Id", "X-ReqId", "X-Rate-Limit", "X-RateLimit", "X-Al-Pha")
+		}
 		a.rng.Shuffle(len(names), func(i, j int) { names[i], names[j] = names[j], names[i] })
-		for _, n := range names[:a.n(1, 3)] {
+		hi := 3
+		if a.v2 {
+			hi = 5
+		}
+		for _, n := range names[:a.n(1, hi)] {
 			if len(a.headers) > 0 && a.coin() {
 				a.w(indent+1, "%s: {$ref: \"#/components/headers/%s\"}", n, a.pick(a.headers))
 			} else {
